@@ -28,7 +28,7 @@ class Unsupported(Exception):
 class Target:
     def __init__(self, name, file, func, cls=None, params=(), ret="Rat", attrs=None, names=None, types=None, calls=None,
                  monadic=False, fuel=False, doc="", body_of_if=False, index_attrs=None, setter=False, assign_attrs=None,
-                 opt_attrs=None, type_tests=None, imports=()):
+                 opt_attrs=None, type_tests=None, imports=(), accs=None, truthy=()):
         self.name, self.file, self.func, self.cls = name, file, func, cls
         self.params = list(params)          # [(python name or None, lean binder text)]
         self.ret = ret
@@ -45,6 +45,8 @@ class Target:
         self.assign_attrs = assign_attrs or {}  # (var, attr) -> lean template of the new object value for `var.attr = {v}`
         self.opt_attrs = opt_attrs or {}
         self.ret_self = setter or func == "__init__"
+        self.accs = accs or {}              # accumulator variable (list / dict built by loops) -> lean element type
+        self.truthy = set(truthy)           # calls returning an Optional whose truth value is `is not None`
         self.type_tests = type_tests or {}  # (dotted expr, class name) -> lean Bool for `type(expr) is Class`    # (var, attr) -> lean text of the Option behind an attribute tested with `is None`
 
 
@@ -130,7 +132,12 @@ class Tr:
             raise Unsupported(f"binary op {type(n.op).__name__}")
         if isinstance(n, ast.BoolOp):
             op = " && " if isinstance(n.op, ast.And) else " || "
-            return "(" + op.join(self.e(v) for v in n.values) + ")"
+
+            def tv(v):
+                if isinstance(v, ast.Call) and self.dotted(v.func) in t.truthy:
+                    return f"({self.e(v)}).isSome"
+                return self.e(v)
+            return "(" + op.join(tv(v) for v in n.values) + ")"
         if isinstance(n, ast.Compare):
             # static type tests
             st = self.static_test(n)
@@ -213,10 +220,17 @@ class Tr:
             if v in t.types:
                 names = self.dotted(n.args[1])
                 if isinstance(n.args[1], ast.Tuple):
-                    names = " ".join(self.dotted(x) for x in n.args[1].elts)
+                    names = " ".join("NoneType" if (isinstance(x, ast.Call) and self.dotted(x.func) == "type" and len(x.args) == 1
+                                                    and isinstance(x.args[0], ast.Constant) and x.args[0].value is None)
+                                     else self.dotted(x) for x in n.args[1].elts)
                 table = {"num": ["float", "int", "validity.ValidTypes.NUMBERS", "ValidTypes.NUMBERS"],
-                         "Interval": ["Interval"], "AngleInterval": ["AngleInterval", "Interval"]}
-                hit = any(x in names.split() or x == names for x in table.get(t.types[v], [t.types[v]]))
+                         "Interval": ["Interval"], "AngleInterval": ["AngleInterval", "Interval"],
+                         "ObstacleRole?": ["ObstacleRole", "NoneType"], "ObstacleType?": ["ObstacleType", "NoneType"]}
+                want = table.get(t.types[v], [t.types[v]])
+                if t.types[v].endswith("?"):
+                    hit = all(x in names.split() for x in want)     # an Optional argument: both alternatives must be admitted
+                else:
+                    hit = any(x in names.split() or x == names for x in want)
                 return "true" if hit else "false"
             raise Unsupported(f"isinstance on untyped {v}")
         if dotted == "np.argmax" and isinstance(n.args[0], ast.Compare) and isinstance(n.args[0].ops[0], ast.Lt):
@@ -287,6 +301,21 @@ class Tr:
             return f"{pad}return {v}"
         if isinstance(s, ast.Assert):
             return f"{pad}CR.Py.assert ({self.e(s.test)})\n" + self.block(rest, ind)
+        if isinstance(s, ast.Assign) and len(s.targets) == 1 and isinstance(s.targets[0], ast.Name) \
+                and s.targets[0].id in self.t.accs and self.empty_container(s.value):
+            a = s.targets[0].id
+            return f"{pad}let {a} : List ({self.t.accs[a]}) := []\n" + self.block(rest, ind)
+        if isinstance(s, ast.For) and isinstance(s.target, ast.Name) and not s.orelse:
+            # `for x in xs: <updates of one accumulator>`  ==>  a left fold over xs
+            acc = self.loop_acc(s.body)
+            before = self.uses_bind
+            self.uses_bind = False
+            body = self.loop_body(list(s.body), acc)
+            it = self.e(s.iter)
+            if self.uses_bind:
+                raise Unsupported("partial operation inside a loop")
+            self.uses_bind = before
+            return f"{pad}let {acc} := ({it}).foldl (fun {acc} {self.local(s.target.id)} => {body}) {acc}\n" + self.block(rest, ind)
         if isinstance(s, ast.Assign) and len(s.targets) == 1:
             tg = s.targets[0]
             if isinstance(tg, ast.Name):
@@ -353,6 +382,42 @@ class Tr:
             bind = f"{pad}let ({tup}) := {call}\n" if len(vars_) > 1 else f"{pad}let {tup} := {call}\n"
             return bind + self.block(rest, ind)
         raise Unsupported(f"statement {type(s).__name__}")
+
+    def empty_container(self, v):
+        if isinstance(v, (ast.List, ast.Dict)) and not (getattr(v, "elts", None) or getattr(v, "keys", None)):
+            return True
+        return isinstance(v, ast.Call) and self.dotted(v.func) in ("list", "dict") and not v.args
+
+    def loop_acc(self, stmts):
+        """The one accumulator a loop body updates (`acc.append(x)` / `acc[k] = v`)."""
+        found = set()
+        for n in ast.walk(ast.Module(body=list(stmts), type_ignores=[])):
+            if isinstance(n, ast.Call) and isinstance(n.func, ast.Attribute) and n.func.attr == "append" and isinstance(n.func.value, ast.Name):
+                found.add(n.func.value.id)
+            if isinstance(n, ast.Assign) and isinstance(n.targets[0], ast.Subscript) and isinstance(n.targets[0].value, ast.Name):
+                found.add(n.targets[0].value.id)
+        if len(found) != 1 or next(iter(found)) not in self.t.accs:
+            raise Unsupported(f"loop accumulators {sorted(found)}")
+        return next(iter(found))
+
+    def loop_body(self, stmts, acc):
+        """Expression for the accumulator after running `stmts` once (an assoc list stands for a dict: `d[k] = v` appends)."""
+        if not stmts:
+            return acc
+        s, rest = stmts[0], stmts[1:]
+        if isinstance(s, ast.If):
+            upd = f"(if {self.e(s.test)} then {self.loop_body(list(s.body), acc)} else {self.loop_body(list(s.orelse), acc)})"
+        elif isinstance(s, ast.Expr) and isinstance(s.value, ast.Call) and isinstance(s.value.func, ast.Attribute) \
+                and s.value.func.attr == "append" and self.base_name(s.value.func.value) == acc and len(s.value.args) == 1:
+            upd = f"({acc} ++ [{self.e(s.value.args[0])}])"
+        elif isinstance(s, ast.Assign) and len(s.targets) == 1 and isinstance(s.targets[0], ast.Subscript) \
+                and self.base_name(s.targets[0].value) == acc:
+            upd = f"({acc} ++ [({self.e(s.targets[0].slice)}, {self.e(s.value)})])"
+        else:
+            raise Unsupported(f"loop statement {type(s).__name__}")
+        if not rest:
+            return upd
+        return f"(let {acc} := {upd}; {self.loop_body(rest, acc)})"
 
     def returns(self, stmts):
         if not stmts:
@@ -504,6 +569,31 @@ def targets():
                [(None, "p : Option (List CR.Occ.TS)"), ("time_step", "time_step : Int")], "Option CR.Occ.Occ",
                opt_attrs={("self", "_prediction"): "p"},
                calls={"self._prediction.occupancy_at_time_step": ("CR.Occ.predOccAt (.setBased (p.getD []))", False, True)}),
+        Target("Scenario_obstacle_states_at_time_step", "commonroad/scenario/scenario.py", "obstacle_states_at_time_step", "Scenario",
+               [(None, "obs : List (Nat × CR.Occ.Obst)"), ("time_step", "time_step : Int")], "List (Nat × Option CR.Occ.StRef)",
+               attrs={("self", "dynamic_obstacles"): "(obs.filter (fun o => decide (o.2.role = .dynamic)))",
+                      ("self", "static_obstacles"): "(obs.filter (fun o => decide (o.2.role = .static)))",
+                      ("obstacle", "obstacle_id"): "obstacle.1", ("obstacle", "initial_state"): "(some CR.Occ.StRef.init)"},
+               calls={"is_natural_number": ("CR.Py.isNat", False), "obstacle.state_at_time": ("CR.Occ.stateAt obstacle.2", False, True)},
+               accs={"obstacle_states": "Nat × Option CR.Occ.StRef"}, monadic=True,
+               doc="the dict id -> state as an association list in insertion order; `self.dynamic_obstacles` / `self.static_obstacles` "
+                   "are the obstacles of that role in scenario order"),
+        Target("Scenario_occupancies_at_time_step", "commonroad/scenario/scenario.py", "occupancies_at_time_step", "Scenario",
+               [(None, "obs : List (Nat × CR.Occ.Obst)"), ("time_step", "time_step : Int"), ("obstacle_role", "obstacle_role : Option CR.Occ.Role")],
+               "List (Option CR.Occ.Occ)",
+               attrs={("self", "obstacles"): "obs", ("obstacle", "obstacle_role"): "(some obstacle.2.role)"},
+               types={"obstacle_role": "ObstacleRole?"}, truthy=["obstacle.occupancy_at_time"],
+               calls={"is_natural_number": ("CR.Py.isNat", False), "obstacle.occupancy_at_time": ("CR.Occ.occupancyAt obstacle.2", False, True)},
+               accs={"occupancies": "Option CR.Occ.Occ"}, monadic=True,
+               doc="`self.obstacles` is the parameter obs; an Occupancy object is truthy, None is not"),
+        Target("Scenario_obstacles_by_role_and_type", "commonroad/scenario/scenario.py", "obstacles_by_role_and_type", "Scenario",
+               [(None, "obs : List (Nat × CR.Occ.Obst × Option Nat)"), ("obstacle_role", "obstacle_role : Option CR.Occ.Role"),
+                ("obstacle_type", "obstacle_type : Option Nat")], "List (Nat × CR.Occ.Obst × Option Nat)",
+               attrs={("self", "obstacles"): "obs", ("obstacle", "obstacle_role"): "(some obstacle.2.1.role)"},
+               types={"obstacle_role": "ObstacleRole?", "obstacle_type": "ObstacleType?"},
+               calls={"getattr": ("const:obstacle.2.2", False)},
+               accs={"obstacle_list": "Nat × CR.Occ.Obst × Option Nat"}, monadic=True,
+               doc="`getattr(obstacle, 'obstacle_type', None)` is the third component (none for phantom obstacles)"),
         Target("TrafficLightCycle_cycle_init_timesteps", "commonroad/scenario/traffic_light.py", "cycle_init_timesteps",
                "TrafficLightCycle", [(None, "es : List CR.TL.Elem"), (None, "off : Int")], "List Int",
                attrs={("self", "_cycle_elements"): "es", ("self", "time_offset"): "off", ("*", "duration"): "{v}.2"},
